@@ -45,6 +45,8 @@ theorem broken_pipe_silent_zero (m : Mode) (hm : rendering m) (pager : Bool) (wr
   | stdinTty => simp [rendering] at hm
   | diffArgsError => simp [rendering] at hm
   | oneshot => simp [rendering] at hm
+  | setupAbort i => simp [rendering] at hm
+  | renderAbort i => simp [rendering] at hm
 
 example : rendering (.sub .git true (some 128) 3) ∧ (41 : Nat) < 42 := by simp [rendering]
 
@@ -160,7 +162,13 @@ theorem subcommand_early_returns (k : SubKind) (st : Option Int) (n : Nat) (page
     (∀ pos, pos < writes →
        runResult ⟨.sub k true st n, pager, writes, some ⟨pos, .other⟩⟩ = some ⟨2, false⟩) := by
   refine ⟨?_, ?_, ?_, ?_⟩
-  · intro fault; simp [runResult, shapeOk_true, body, spawnFail_code]
+  · intro fault
+    have hs := spawnFail_exit
+    cases hx : spawnFailExit with
+    | none => simp [hx] at hs
+    | some x =>
+      simp [hx] at hs
+      simp [runResult, shapeOk_true, body, hx, hs]
   · intro fault h
     simp [runResult, shapeOk_true, body, h, subStatusFromCode_true, subNoStatus_true,
       subTail_status, subNoStatusPrints_true, errorExitCode_two]
@@ -326,9 +334,51 @@ example : lessSetup ⟨true, true, .unset⟩ = .ok true ["+n"] := by decide
 
 /-! ### Event order -/
 
+/-! #### Returns vs. `process::exit`
+
+Only a *return* from `run_app` drops `output_type`, whose `Drop` waits for the pager;
+`fatal(..)`, `process::exit(..)` and `delta_unreachable(..)` end the process on the spot. The
+extractor lists every call of one of these three that can be reached once `run_app` has called
+`OutputType::from_mode` (name-based call graph over the crate): `setupPhaseExits` (statements of
+`run_app` other than the rendering call, and the helpers they call: `build_diff_cmd`, the
+resolve / spawn / wait / stderr code) and `renderPhaseExits` (reachable only through `delta(..)`). -/
+
+/-- Outside the rendering, nothing `run_app` does after the pager was started can end the process
+    without running destructors: the unparsable `--diff-args` exit, the terminal-on-stdin exit and
+    the two cannot-start-the-command exits are `return Ok(2)` with a message, and the only exit
+    primitives in `run_app`'s own statements and in the helpers they reach are `delta_unreachable`
+    guards of states declared impossible. -/
+theorem error_exits_are_returns :
+    errExit PagerShape.diffArgsErrExit = some ⟨[Event.message], 2, false, true⟩ ∧
+    errExit PagerShape.stdinTtyExit = some ⟨[Event.message], 2, false, true⟩ ∧
+    spawnFailExit.bind errExit = some ⟨[Event.message], 2, false, true⟩ ∧
+    (∀ e ∈ PagerShape.setupPhaseExits, e.2.1 = "unreachable") := by
+  refine ⟨diffArgs_exit, stdinTty_exit, spawnFail_exit, ?_⟩
+  intro e he
+  have := List.all_eq_true.mp setupExits_unreachable e he
+  simpa using this
+
+example : run ⟨.diffArgsError, true, 0, none⟩
+    = [Event.spawnPager, Event.message, Event.closePager, Event.waitPager, Event.exit 2] := by decide
+
+/-- Unparsable `--diff-args`, terminal on stdin, command that cannot be started: status 2 with a
+    message (the `>= 2 trouble` of the property). -/
+theorem setup_errors_status_two (pager : Bool) (writes : Nat) (fault : Option Fault) :
+    runResult ⟨.diffArgsError, pager, writes, fault⟩ = some ⟨2, false⟩ ∧
+    runResult ⟨.stdinTty, pager, writes, fault⟩ = some ⟨2, false⟩ := by
+  simp [runResult, shapeOk_true, body, diffArgs_exit, stdinTty_exit]
+
+example : runResult ⟨.diffArgsError, true, 0, none⟩ = some ⟨2, false⟩ := by decide
+
 /-- On every path on which a pager was spawned, the run ends with: close the pager's stdin,
-    wait for the pager, exit — and there is no exit event before that. -/
-theorem wait_before_exit (s : Scenario) (h : Event.spawnPager ∈ run s) :
+    wait for the pager, exit — and there is no exit event before that. For EVERY scenario
+    (stdin, terminal on stdin, unparsable `--diff-args`, differ / wrapped command missing, killed,
+    failing, every write fault, every entry of `setupPhaseExits`) except an exit primitive executed
+    *inside the rendering call* (`renderAbort`, see `render_fatal_skips_wait_partial`).
+
+    Full statement (no `hr`): FALSE on the pinned tree, see below. -/
+theorem wait_before_exit (s : Scenario) (h : Event.spawnPager ∈ run s)
+    (hr : s.mode.isRenderAbort = false) :
     ∃ pre c, run s = pre ++ [Event.closePager, Event.waitPager, Event.exit c] ∧
       (∀ c', Event.exit c' ∉ pre) ∧ Event.waitPager ∉ pre := by
   unfold run at h ⊢
@@ -348,7 +398,7 @@ theorem wait_before_exit (s : Scenario) (h : Event.spawnPager ∈ run s) :
         simp [this] at h
     have huse : usesOutputType s.mode = true := by
       simp [hasPager] at hp; exact hp.2
-    have hr := hret huse
+    have hr := hret huse hr
     refine ⟨[Event.spawnPager] ++ b.events, b.code, ?_, ?_, ?_⟩
     · simp [hp, hr, dropWaits]
     · intro c'
@@ -356,6 +406,41 @@ theorem wait_before_exit (s : Scenario) (h : Event.spawnPager ∈ run s) :
       simp [this]
     · have := not_mem_of_all_body hev Event.waitPager rfl
       simp [this]
+
+/-- … in particular every entry of `setupPhaseExits` (the helpers of `run_app`, `build_diff_cmd`
+    included): there is no run in which one of them ends the process while a pager is running. -/
+theorem no_exit_outside_rendering (i : Nat) (pager : Bool) (writes : Nat) (fault : Option Fault) :
+    Event.spawnPager ∉ run ⟨.setupAbort i, pager, writes, fault⟩ := by
+  simp [run, shapeOk_true, setupAbort_none]
+
+/-- The exit primitives reachable through the rendering call: when entry `i` of
+    `renderPhaseExits` is a `fatal(..)`, executing it ends delta with a message and status 2
+    WITHOUT closing and waiting for the pager: "delta does not exit before the pager does" is
+    FALSE on such a path. On the pinned tree the table has three `fatal` entries
+    (`format.rs:parse_line_number_format` ×2: width / precision of a `{placeholder:…}` in
+    `--line-numbers-left-format`, `--line-numbers-right-format`, `--blame-format` that does not
+    fit a `usize`; `color.rs:parse_color`: an invalid colour in `--blame-palette`), each parsed
+    only when the first hunk / blame line is rendered. Confirmed on the binary (known findings
+    `exit-before-pager:fatal-while-rendering:*`); proposed fix: validate in `Config::from`. -/
+theorem render_fatal_skips_wait_partial (i : Nat) (site : String) (pager : Bool) (writes : Nat)
+    (fault : Option Fault) (h : PagerShape.renderPhaseExits[i]? = some (site, "fatal")) :
+    run ⟨.renderAbort i, pager, writes, fault⟩ =
+      (if pager then [Event.spawnPager] else []) ++ List.replicate writes Event.writeOk
+      ++ [Event.message, Event.exit 2] := by
+  cases pager <;>
+    simp [run, shapeOk_true, body, h, abortBody, hasPager, usesOutputType, fatalExitCode_two]
+
+-- (no entry number is fixed here: the table is what a fix changes; an index outside it has no run)
+example : run ⟨.renderAbort 1000000, true, 3, none⟩ = [Event.unknown] := by decide
+
+/-- Subcommands that start a pager of their own (`--show-themes`, `--show-syntax-themes`,
+    `--show-colors`): the only exit primitive they execute after that pager was started, outside
+    the rendering, is `process::exit(0)` in a `BrokenPipe` arm - status 0 and silent as the
+    property asks when the reader goes away, but without waiting for a pager that closed its
+    input and is still running (known finding `exit-before-pager:own-pager-reader-gone:*`). -/
+theorem own_pager_exits_only_reader_gone :
+    ∀ e ∈ PagerShape.ownPagerExits, e.2.1 = "exit" ∧ e.2.2.1 = "BrokenPipe" ∧ e.2.2.2 = "0" := by
+  decide
 
 example : Event.spawnPager ∈ run ⟨.sub .git true (some 1) 0, true, 3, some ⟨1, .brokenPipe⟩⟩ := by
   decide
